@@ -83,12 +83,15 @@ class ExecutionContext:
             return self.__CreateStructureInstance(varType)
         elif varType.IsArray():
             assert isinstance(varType, LinearIR.ArrayType)
-            result = [
-                self.__CreateInstance(varType.ElementType)
-            ] * varType.Size[0]
-            for dimSize in varType.Size[1:]:
-                result = [result] * dimSize
-            return result
+
+            # Every element is an instance of its own, and the first
+            # dimension is the outermost one (int[2][3] has two rows)
+            def CreateDimension(sizes):
+                if not sizes:
+                    return self.__CreateInstance(varType.ElementType)
+                return [CreateDimension(sizes[1:]) for _ in range(sizes[0])]
+
+            return CreateDimension(list(varType.Size))
 
     def __CreatePrimitiveInstance(self, primitiveType: LinearIR.Type):
         match primitiveType.Kind:
@@ -97,7 +100,8 @@ class ExecutionContext:
             case LinearIR.TypeKind.Matrix:
                 return [
                     [0] * primitiveType.ColumnCount
-                ] * primitiveType.RowCount
+                    for _ in range(primitiveType.RowCount)
+                ]
             case LinearIR.TypeKind.Scalar:
                 return 0
 
